@@ -91,6 +91,16 @@ CHECKS = {
              'documented rules; each state is replayed: the produced text is searched for omitted member names and sentinels and '
              'compared with the exact predicted document, and strict decoding per caller is compared with the predicted outcome.',
         ref='3.5, 4 (C13)'),
+    'C19': dict(
+        technique='TLA+ spec StoneCli (precedence parser ParseModel + three-valued Eval + pruning pipeline with error exits) explored by TLC; every state replayed through stone.cli.main with a recording backend',
+        text='TLC enumerates filter strings (all atom (and|or atom)* of <=3 atoms, thorough 4, one optional parenthesised sub-range, every '
+             'single-token deletion), every subset of known and unknown namespaces for -w / -b and of known and unknown attributes and '
+             ':all for -a, and checks Precedence (and over or, left association), OuterParensNeutral, AbsentIsNull, ErrorsNotIgnored and '
+             'NamespacesKeepOnlySelected. Each state is replayed in-process through stone.cli.main on a 4-namespace spec whose 8 routes '
+             'cover all attribute value combinations; a recording .stoneg.py backend dumps the Api it receives: surviving routes, visible '
+             'attributes and values, route schema, retained types and the by-name tables must equal the prediction; malformed filters, '
+             'unknown namespaces and unknown attributes must exit non-zero with a message and without running the backend.',
+        ref='3.9, 4 (C19)'),
     'C20': dict(
         technique='TLA+ spec StoneWhitelist (declarative Closure vs operational depth-first traversal with seen set) model-checked by TLC; every state replayed through specs_to_ir(route_whitelist_filter) and python_types',
         text='A skeleton spec of 10 types, an alias and 4 routes in two namespaces has 14 individually switchable dependency edges '
